@@ -614,10 +614,23 @@ func (f *FnEnc) enterBlock(b *ssa.BasicBlock, entryReach Term, entrySt *State) {
 			f.addObl("inv-init", fmt.Sprintf("loop%d/%s", li.ordinal, clauseLabel(inv, i)), g, token.NoPos, inv.Props, inv.Src)
 		}
 	}
+	// implicit frame invariant (top-level function with an assigns clause): at the loop head every
+	// object that existed at function entry and is not an assigns target holds its entry value
+	implicitFrame := f.top && f.spec != nil && f.spec.HasAssigns && li.spec != nil
+	if implicitFrame {
+		for _, g := range f.frameGoals(f.topVars(), f.st) {
+			f.addObl("frame-init", fmt.Sprintf("loop%d/%s", li.ordinal, g.name), g.goal, token.NoPos, nil, "assigns clause (implicit loop invariant)")
+		}
+	}
 	// 2. havoc what the loop modifies
 	ws := f.loopWrites(li)
 	_ = f.st
 	f.st = f.havocWrites(ws)
+	if implicitFrame {
+		for _, g := range f.frameGoals(f.topVars(), f.st) {
+			f.assume(g.goal)
+		}
+	}
 	for _, ins := range b.Instrs {
 		phi, ok := ins.(*ssa.Phi)
 		if !ok {
@@ -733,6 +746,11 @@ func (f *FnEnc) finishEdge(from *ssa.BasicBlock, to *ssa.BasicBlock, cond Term) 
 				ctx := f.specCtx(f.st, to, nil)
 				g := f.evalClauseSafe(ctx, inv)
 				f.addObl("inv-step", fmt.Sprintf("loop%d/%s", li.ordinal, clauseLabel(inv, i)), g, token.NoPos, inv.Props, inv.Src)
+			}
+			if f.top && f.spec != nil && f.spec.HasAssigns {
+				for _, g := range f.frameGoals(f.topVars(), f.st) {
+					f.addObl("frame-step", fmt.Sprintf("loop%d/%s", li.ordinal, g.name), g.goal, token.NoPos, nil, "assigns clause (implicit loop invariant)")
+				}
 			}
 			if li.hasDec {
 				ctx := f.specCtx(f.st, to, nil)
